@@ -185,6 +185,47 @@ func adapters(r *lib.Report) (int64, int64) {
 			bad("panic", "adapters with %v: %s", rest, p)
 		}
 	}
+	// one adapter instance applied twice: the first call's result is re-inspected after the second call
+	{
+		type twice struct {
+			name string
+			call func(s ...int) interface{}
+			want func(s []int) interface{}
+		}
+		r1 := fpgo.MakeVariadicReturn1(func(s ...int) int { return len(s) })
+		r2 := fpgo.MakeVariadicReturn2(func(s ...int) (int, int) { return len(s), 2 })
+		r3 := fpgo.MakeVariadicReturn3(func(s ...int) (int, int, int) { return len(s), 2, 3 })
+		r4 := fpgo.MakeVariadicReturn4(func(s ...int) (int, int, int, int) { return len(s), 2, 3, 4 })
+		r5 := fpgo.MakeVariadicReturn5(func(s ...int) (int, int, int, int, int) { return len(s), 2, 3, 4, 5 })
+		r6 := fpgo.MakeVariadicReturn6(func(s ...int) (int, int, int, int, int, int) { return len(s), 2, 3, 4, 5, 6 })
+		p1 := fpgo.MakeVariadicParam1(func(a int) []int { return []int{a} })
+		p2 := fpgo.MakeVariadicParam2(func(a, b int) []int { return []int{a, b} })
+		c1 := fpgo.CurryParam1(func(a string, s ...int) []int { return append([]int{len(a)}, s...) }, "A")
+		c1s := fpgo.CurryParam1ForSlice1(func(a string, s []int) []int { return append([]int{len(a)}, s...) }, "A")
+		for _, t := range []twice{
+			{"MakeVariadicReturn1", func(s ...int) interface{} { return r1(s...) }, func(s []int) interface{} { return []int{len(s)} }},
+			{"MakeVariadicReturn2", func(s ...int) interface{} { return r2(s...) }, func(s []int) interface{} { return []int{len(s), 2} }},
+			{"MakeVariadicReturn3", func(s ...int) interface{} { return r3(s...) }, func(s []int) interface{} { return []int{len(s), 2, 3} }},
+			{"MakeVariadicReturn4", func(s ...int) interface{} { return r4(s...) }, func(s []int) interface{} { return []int{len(s), 2, 3, 4} }},
+			{"MakeVariadicReturn5", func(s ...int) interface{} { return r5(s...) }, func(s []int) interface{} { return []int{len(s), 2, 3, 4, 5} }},
+			{"MakeVariadicReturn6", func(s ...int) interface{} { return r6(s...) }, func(s []int) interface{} { return []int{len(s), 2, 3, 4, 5, 6} }},
+			{"MakeVariadicParam1", func(s ...int) interface{} { return p1(s...) }, func(s []int) interface{} { return s[:1] }},
+			{"MakeVariadicParam2", func(s ...int) interface{} { return p2(s...) }, func(s []int) interface{} { return s[:2] }},
+			{"CurryParam1", func(s ...int) interface{} { return c1(s...) }, func(s []int) interface{} { return append([]int{1}, s...) }},
+			{"CurryParam1ForSlice1", func(s ...int) interface{} { return c1s(s...) }, func(s []int) interface{} { return append([]int{1}, s...) }},
+		} {
+			trans++
+			a1, a2 := []int{11, 12}, []int{21, 22, 23, 24}
+			var first, second interface{}
+			if p := lib.Catch(func() { first = t.call(a1...); second = t.call(a2...) }); p != "" {
+				bad("panic", "%s applied twice: %s", t.name, p)
+				continue
+			}
+			if fmt.Sprint(first) != fmt.Sprint(t.want(a1)) || fmt.Sprint(second) != fmt.Sprint(t.want(a2)) {
+				bad(t.name+"|reused", "one %s adapter applied to %v and then to %v: the first result now reads %v (want %v), the second %v (want %v)", t.name, a1, a2, first, t.want(a1), second, t.want(a2))
+			}
+		}
+	}
 	args := []int{11, 12, 13, 14, 15, 16, 17}
 	p := lib.Catch(func() {
 		check("MakeVariadicParam1", fpgo.MakeVariadicParam1(func(a int) []int { return []int{a} })(args...), args[:1])
